@@ -164,6 +164,11 @@ def check(tier, seed, replay=None):
         o = obs[i]
         rows = bytes.fromhex(o["out"]).decode("utf-8", "replace").strip().split("\n") if o["res"] == "ok" else []
         rows = [r for r in rows if r]
+        if o["res"] not in ("ok", "cli", "err"):
+            # jawk itself died (panic, stack overflow, hang) on a binding form whose written-out twin is a plain expression: that is a verdict
+            chk.violation("C12 %s: the run did not return a result (%s: %s) argv=%s" % (p["kind"], o["res"], str(o.get("msg"))[:200], cases[i]["argv"]),
+                          {"recipe": {"kind": p["kind"], "argv": cases[i]["argv"], "input": G.canonical(p["input"]).decode("utf-8")}, "flag": o["res"]})
+            continue
         if o["res"] != "ok":
             # both forms are in the same run: a configuration the generator got wrong fails before any row
             raise ToolError("generated configuration was rejected: %s: %s" % (cases[i]["argv"], o.get("msg")))
